@@ -5,7 +5,8 @@ From Coq Require Import ZArith Bool List Reals.
 Import ListNotations.
 From SU Require Import F32 F32Lemmas.
 From SU.Model Require Import PhaseAcc Lfo.
-From SU.Proofs Require Import LfoProofs SineProofs.
+From SU.Model Require Import Utils.
+From SU.Proofs Require Import LfoProofs SineProofs UtilsProofs.
 Open Scope R_scope.
 
 (** every phase the oscillator can reach is a 24-bit counter value: for every history of
@@ -56,7 +57,15 @@ Proof. exact sine_close. Qed.
 Theorem C10_get_no_panic : forall l, (0 <= pa_acc l < 16777216)%Z -> lfo_get_ok l = true.
 Proof. exact lfo_get_no_panic. Qed.
 
+(** the table index uses the top ilog_2(1024) = 10 bits of the counter: the Rust [ilog_2] is a
+    halving loop; the loop (with fuel 64, enough for any usize) computes [Z.log2], which is what
+    the model uses, and yields 10 for the table size *)
+Theorem C10_index_bits : (forall x, (0 <= x < 2 ^ 64)%Z -> ilog_2_loop 64 x 0 = ilog_2 x) /\
+  ilog_2 1024 = 10%Z /\ LIDX = 10%Z.
+Proof. split; [exact ilog_2_loop_correct | split; [exact ilog_2_1024 | vm_compute; reflexivity]]. Qed.
+
 Print Assumptions C10_acc_range.
+Print Assumptions C10_index_bits.
 Print Assumptions C10_upsaw.
 Print Assumptions C10_downsaw.
 Print Assumptions C10_square.
